@@ -220,6 +220,14 @@ func edgeFrom(ph *ssa.Phi, b *ssa.BasicBlock) ssa.Value {
 // ruleC10scan: structural necessary conditions of the byte scanner.
 func ruleC10scan(c *Ctx) []*report.Result {
 	r := report.NewResult("C10.scan", "the escape scanner: starts at startLoc; each marker test bytes.Equal(b[i:i+L], M) has L = len(M), is guarded exactly by i+L <= len(b), replaces the marker by the escape mark and advances the copied-up-to index to i+L and the scan index by L-1; the dangling-tail rule (DecodeLastRune of the input, size 1 and RuneError => append the escape mark) lies on every path to return", 12)
+	if sym := c.symScan(); sym.decided {
+		// the loop is decided path by path (C10.sym), which subsumes the
+		// shape conditions below and does not depend on the shape
+		r.Note("the scan loop is decided path-wise by C10.sym; the shape conditions are not needed")
+		r.Floor = 0
+		r.Ok("subsumed by C10.sym")
+		return []*report.Result{r}
+	}
 	mf := c.markerFacts(r)
 	s := c.findScanner(r)
 	if s == nil {
